@@ -208,3 +208,45 @@ Example from_transformation_example :
   | _ => false
   end = true.
 Proof. vm_compute. reflexivity. Qed.
+
+(* ---- by-products: a channel that appears in the transformed data although the input did not have it comes from a
+   parallel-channel transformation, and its value does not depend on the input at all ---- *)
+Lemma hfun_none_const : forall T, simple T = true -> forall t k,
+  hfun T t k None <> None -> forall x y, hfun T t k x = hfun T t k y.
+Proof.
+  induction T using trafo_ind'; intros Hs t k Hn x y; cbn [simple] in Hs; try discriminate; cbn [hfun] in *;
+    try (exfalso; apply Hn; reflexivity).
+  - destruct (lookup k f); [reflexivity|exfalso; apply Hn; reflexivity].
+  - apply simple_all_Forall in Hs. revert x y Hn.
+    induction H as [|T1 r H1 _ IH]; intros x y Hn; [exfalso; apply Hn; reflexivity|].
+    apply Forall_cons_iff in Hs as [S1 S2].
+    destruct (hfun T1 t k None) as [z|] eqn:E1.
+    + rewrite (H1 S1 t k (fun A => ltac:(rewrite E1 in A; discriminate)) x y). reflexivity.
+    + (* the rest of the chain produces the binding *)
+      assert (Hc : forall u v, (fix go (l : list trafo) (x : option (option Q)) := match l with [] => x | T1 :: r => go r (hfun T1 t k x) end) r u
+                             = (fix go (l : list trafo) (x : option (option Q)) := match l with [] => x | T1 :: r => go r (hfun T1 t k x) end) r v)
+        by (intros u v; apply IH; [exact S2|exact Hn]).
+      apply Hc.
+Qed.
+
+(* the binding of k in the transformed data, computed from the inputs selected for c or from those selected for k *)
+Lemma simple_byproduct : forall T, simple T = true -> forall t c k (f : chan -> option Q) insc insk o1,
+  t_in T [c] = Some insc -> t_in T [k] = Some insk ->
+  t_point T t (map (fun ic => (ic, f ic)) insc) = Some o1 -> lookup k o1 <> None ->
+  exists o2, t_point T t (map (fun ic => (ic, f ic)) insk) = Some o2 /\ lookup k o2 = lookup k o1.
+Proof.
+  intros T Hs t c k f insc insk o1 Hc Hk E1 Hne.
+  destruct (simple_lookup T Hs t (map (fun ic => (ic, f ic)) insc)) as [o1' [E1' L1]].
+  rewrite E1 in E1'. injection E1' as <-.
+  destruct (simple_lookup T Hs t (map (fun ic => (ic, f ic)) insk)) as [o2 [E2 L2]].
+  exists o2. split; [exact E2|]. rewrite L1, L2. rewrite L1 in Hne.
+  destruct (simple_t_in T Hs c t) as [_ [Hcc|[Hcc Hcconst]]]; rewrite Hcc in Hc; injection Hc as <-;
+  destruct (simple_t_in T Hs k t) as [_ [Hkk|[Hkk Hkconst]]]; rewrite Hkk in Hk; injection Hk as <-.
+  - (* both selected: data [c] vs data [k] *)
+    cbn [map lookup] in *. rewrite N.eqb_refl. destruct (N.eqb k c) eqn:E.
+    + apply N.eqb_eq in E. subst. reflexivity.
+    + apply (hfun_none_const T Hs t k Hne).
+  - apply Hkconst.
+  - cbn [map lookup] in *. rewrite N.eqb_refl. apply (hfun_none_const T Hs t k Hne).
+  - apply Hkconst.
+Qed.
